@@ -16,7 +16,11 @@ for i, m in enumerate(muts):
     S = f"/var/tmp/verif-scratch.st{os.getpid()}"
     subprocess.run([f"{V}/scripts/scratch.sh", S], check=True)
     try:
-        for ed in m["edits"]:
+        if m.get("revert_diff"):
+            r = subprocess.run(["git", "apply", "-R", "--exclude=*_test.go", "--exclude=docs/*", "--exclude=examples/*", f"{V}/{m['revert_diff']}"], cwd=S, capture_output=True, text=True)
+            if r.returncode != 0:
+                print(f"MUTANT-STALE {m['name']}: reverse patch does not apply: {r.stderr.strip()[:200]}"); raise SystemExit(2)
+        for ed in m.get("edits", []):
             p = os.path.join(S, ed["file"]); s = open(p).read()
             if ed["old"] not in s:
                 print(f"MUTANT-STALE {m['name']}: pattern not found in {ed['file']}"); raise SystemExit(2)
@@ -26,7 +30,7 @@ for i, m in enumerate(muts):
             r = subprocess.run(["go", "test", "-vet=off", "-count=1", "-timeout", "25m", "./..."], cwd=S, env=env, capture_output=True, text=True)
             suite_ok = r.returncode == 0
         t = time.time()
-        r = subprocess.run([f"{V}/bin/vcheck", m["property"], "--tier", m.get("tier", "quick")], cwd=V, env=dict(env, VERIF_REPO=S, VERIF_DIR=V, VERIF_NOEVIDENCE="1", VERIF_EPHEMERAL="1", VERIF_STALL_S=os.environ.get("VERIF_STALL_S","30")), capture_output=True, text=True, timeout=3000)
+        r = subprocess.run([f"{V}/bin/vcheck", m["property"], "--tier", m.get("tier", "quick")], cwd=V, env=dict(env, VERIF_REPO=S, VERIF_DIR=V, VERIF_NOEVIDENCE="1", VERIF_EPHEMERAL="1", VERIF_STALL_S=os.environ.get("VERIF_STALL_S","120"), **m.get("env", {})), capture_output=True, text=True, timeout=3000)
         sigs = [l.strip() for l in r.stdout.splitlines() if l.strip().startswith("sig=")]
         caught = r.returncode == 1 and "VIOLATION property=" + m["property"] in r.stdout
         print(f"{'CAUGHT' if caught else 'MISSED'} {m['property']} {m['name']} exit={r.returncode} suite={'n/a' if suite_ok is None else ('pass' if suite_ok else 'FAIL')} {time.time()-t:.0f}s {sigs[:2]}")
